@@ -169,16 +169,15 @@ CLAIMED["C08"] = dict(
     engine="lean+corr_server",
     technique="Lean 4 proofs: user.dic round trip for storable user dictionaries (from C10_file), accepted registrations are "
               "storable, restart restores counts/user words/save directory, save is idempotent, the dictionary invariant holds at "
-              "start, is kept by the updater and by every history of atomic steps without compound confirmations, and then a save + "
-              "restart changes no conversion answer (C08_same_answers_partial) + save/restart histories on the real server with 48 ordered probe conversions",
-    text="Thirteen theorems kernel-checked (C08_user_dic_roundtrip, C08_register_storable, C08_restart_restores, C08_idempotent, "
-         "C08_inv_at_start, C08_inv_apply, C08_inv_step, C08_inv_history, C08_same_answers_partial, …); the real server is taken through mixed registration/confirmation histories, saved and "
-         "restarted twice, and every probe answer, Verif.Dump and the bytes of user.dic are compared.",
-    note="frequency.bin's postcard encoding is not modelled (compared through the real files/dumps). Compound learning records the "
-         "entry in the user dictionary before the updater applies it (and again when it does): a kernel-evaluated witness shows "
-         "InvDict false after such a confirmation, so the same-answers theorem is proved for histories without compound "
-         "confirmations only (PARTIAL; the full statement C08_full_statement is kept in the file); with compounds no answer change "
-         "was observed by the oracle. " + SRV_NOTE, design="5/C08")
+              "start and is kept by every step of every history of atomic steps, hence a save + restart changes no conversion answer "
+              "(C08_full: the property at full strength on the model) + save/restart histories on the real server with 56 ordered probe conversions",
+    text="Sixteen theorems kernel-checked (C08_user_dic_roundtrip, C08_register_storable, C08_restart_restores, C08_idempotent, "
+         "C08_inv_at_start, C08_inv_apply, C08_inv_step, C08_inv_history, C08_same_answers_partial, quiet_all, C08_full, …); the real "
+         "server is taken through mixed registration/confirmation histories (incl. counters that only the ancillary dictionary has), "
+         "saved and restarted twice, and every probe answer, Verif.Dump and the bytes of user.dic are compared.",
+    note="frequency.bin's postcard encoding is not modelled (compared through the real files/dumps). Until fix c5e9959 a learned compound "
+         "was stored in the user dictionary twice; the thorough tier found a history after which a restart flipped two equal-score "
+         "candidates (genuine defect D5b, repaired), and the theorem was partial; it is full now. " + SRV_NOTE, design="5/C08")
 CLAIMED["C09"] = dict(
     engine="lean+strace+fault-enumeration",
     technique="Lean 4 theorems by kernel evaluation over every crash point of the extracted file-operation sequence (boundaries "
@@ -242,7 +241,7 @@ CLAIMED["C20"] = dict(
     text="Eight theorems kernel-checked, among them C20_compound_converts (once applied, the compound's reading converts to the "
          "compound as one word, candidate level); for every generated candidate the extracted compound is compared with the expected one; "
          "confirming affixed candidates on the real server must make the compound convertible, saved and restart-proof.",
-    note="The compound is recorded in the user dictionary twice (by the handler and by the updater) — harmless for the property. "
+    note="The compound used to be recorded in the user dictionary twice (handler and updater); repaired by c5e9959 (see C08). "
          + SRV_NOTE, design="5/C20")
 
 CLAIMED["C11"] = dict(
